@@ -17,7 +17,7 @@ from vlib.mc import enum as E
 PROPERTY = 'C08'
 LEVEL = 'exploration'
 ENGINE = 'C'
-TECHNIQUE = ('bounded-exhaustive enumeration of nested mappings over typed '
+TECHNIQUE = ('stateless bounded model checking: complete enumeration of nested mappings over typed '
              'key/value alphabets against a recursive reference, with a deep '
              'before/after snapshot of the argument')
 LEVEL_TEXT = ('Every mapping of the bounded family - all key subsets up to '
